@@ -36,6 +36,7 @@ type Config struct {
 	Concrete  []int64           // concrete mode: values for Nondet calls (translator validation / replay-in-engine)
 	IsConc    bool
 	Trace     bool
+	Witness   *WitnessSink // translator validation: a solver-chosen input per finished path, replayed natively by the caller
 }
 
 const uncheckedTag = int64(-0x7ead0001)
@@ -106,6 +107,7 @@ type Machine struct {
 	Violations  []Violation
 	Reached     map[string]bool
 	Observed    []string
+	observedV   []obsRec
 	Unknowns    []string
 	Decisions   int
 	EndKind     string
@@ -211,6 +213,7 @@ func (m *Machine) RunPath(entry *ssa.Function, prefix []int64, pushAlt func([]in
 	m.Violations = nil
 	m.Reached = map[string]bool{}
 	m.Observed = nil
+	m.observedV = nil
 	m.Unknowns = nil
 	m.Decisions = 0
 	m.skolem = 0
@@ -243,6 +246,9 @@ func (m *Machine) RunPath(entry *ssa.Function, prefix []int64, pushAlt func([]in
 		}()
 		m.call(FuncVal{Fn: entry}, nil, nil)
 	}()
+	if m.Cfg.Witness != nil && m.Sol != nil && (m.EndKind == "done" || m.EndKind == "assume") {
+		m.takeWitness()
+	}
 	m.rollback()
 }
 
@@ -1059,7 +1065,16 @@ var skipInitPrefixes = []string{
 	"massnet.org/mass-wallet/api/proto", "github.com/massnetorg/mass-core/p2p", "github.com/massnetorg/mass-core/netsync",
 }
 
+// exceptions to the prefixes: small initialisers (error values) that harnesses over the LevelDB wrapper read
+var runInitPkgs = map[string]bool{
+	"github.com/syndtr/goleveldb/leveldb": true, "github.com/syndtr/goleveldb/leveldb/errors": true,
+	"github.com/syndtr/goleveldb/leveldb/util": true, "github.com/syndtr/goleveldb/leveldb/iterator": true,
+}
+
 func skipInit(path string) bool {
+	if runInitPkgs[path] {
+		return false
+	}
 	if skipInitPkgs[path] {
 		return true
 	}
